@@ -75,8 +75,11 @@ def run(ctx):
             return f"a tampered JWE ({case.note}) was decrypted"
         return None
     E.run_decrypt_cases(ctx, "jwe-decrypt", cases, check_c02=True, expect=expect_valid, prop="C02")
+    mc = []
     for c, expect in multi_cases(ctx, 6 if ctx.tier == "quick" else 40):
-        E.run_decrypt_cases(ctx, "jwe-multi", [c], check_c02=False, expect=expect, prop="C02")
+        c.expect = expect
+        mc.append(c)
+    E.run_decrypt_cases(ctx, "jwe-multi", mc, check_c02=False, prop="C02")
     if ctx.tier == "thorough":
         rng = ctx.rng
         for alg, enc in (("dir", "A128GCM"), ("A128KW", "A128CBC-HS256"), ("ECDH-ES", "A256GCM"), ("RSA-OAEP", "A192CBC-HS384")):
